@@ -56,6 +56,11 @@ NAMESETS = {
     'dotted-instance': {'type': '_http._tcp.local.', 'inst': 'My.Dotted.Instance._http._tcp.local.', 'host': 'a.b.c.d.e.local.', 'alias': 'b.c.d.e.local.'},
     'long-labels': {'type': '_http._tcp.local.', 'inst': 'x' * 63 + '._http._tcp.local.', 'host': 'y' * 63 + '.' + 'z' * 63 + '.local.', 'alias': 'z' * 63 + '.local.'},
 }
+# names of exactly 253 characters (the longest the decoder must accept) and owner / target sharing suffixes
+_LONG = 'y' * 63 + '.' + 'z' * 63 + '.' + 'w' * 63 + '.' + 'v' * 54 + '.local.'
+assert len(_LONG) == 253
+NAMESETS['max-length'] = {'type': '_http._tcp.local.', 'inst': 'Alpha._http._tcp.local.', 'host': _LONG, 'alias': 'u' * 55 + _LONG[-198:]}
+assert len(NAMESETS['max-length']['alias']) == 253
 
 
 def same_record(ctx: Any, got: Any, want: Any, multicast: bool, where: str) -> None:
@@ -327,7 +332,7 @@ def make_nsec(shape: Dict[str, Any]) -> Any:
 
 def obligations(tier: str) -> List[Obligation]:
     obs = []
-    combos = [('plain', False, True, 'fwd'), ('mixed-case', False, True, 'rev'), ('non-ascii', True, True, 'fwd'), ('dotted-instance', False, False, 'fwd'), ('long-labels', True, False, 'rev')]
+    combos = [('max-length', False, True, 'fwd'), ('plain', False, True, 'fwd'), ('mixed-case', False, True, 'rev'), ('non-ascii', True, True, 'fwd'), ('dotted-instance', False, False, 'fwd'), ('long-labels', True, False, 'rev')]
     if tier == 'thorough':
         combos = [(n, q, m, o) for n in NAMESETS for q in (False, True) for m in (True, False) for o in ('fwd', 'rev')]
     for n, q, m, o in combos:
